@@ -85,7 +85,10 @@ def shard(col, module, pop_bound, limit, n_groups, with_assertions):
                     except Exception:  # noqa: BLE001
                         continue
                 before_cov = fresh_coverage(pipe, suite)
-                before_stmts = {id(c): stmts(c.test_case) for c in suite.test_case_chromosomes}
+                # the originals are kept alive until the comparison is done: a visitor that replaces a chromosome
+                # frees the old object, and a NEW chromosome allocated at its address would be taken for it
+                keep_alive = list(suite.test_case_chromosomes)
+                before_stmts = {id(c): stmts(c.test_case) for c in keep_alive}
                 # "every statement whose variable is asserted on": an assertion whose source is (a field of)
                 # the variable the statement binds; exception assertions are not on a variable
                 asserted = {id(c): [(norm_stmt, st.bound_variable)
@@ -127,7 +130,7 @@ def shard(col, module, pop_bound, limit, n_groups, with_assertions):
                                       f"(import-only coverage {import_only})", data, rank=size_before)
                 all_orig = list(before_stmts.values())
                 for c in suite.test_case_chromosomes:
-                    orig = before_stmts.get(id(c))
+                    orig = before_stmts.get(id(c)) if any(c is k for k in keep_alive) else None
                     if orig is None:
                         # the visitor replaced the chromosome object: match by largest statement overlap
                         now_set = set(stmts(c.test_case))
